@@ -213,7 +213,31 @@ pub(crate) fn m_css_final_semicolon() {
     assert!(a == b, "dropping the final semicolon changes the result: {:?} vs {:?}", a, b);
 }
 
+/// `!important` in a style attribute takes part in the cascade: it beats an `!important` selector rule of the
+/// same sheet (inline over selectors), and loses to nothing of the author's (public API, rich colours).
+pub(crate) fn m_inline_important() {
+    let _which: u8 = kani::any();
+    let html = "<style>#x { color: #0000ff !important; } #y { color: #0000ff !important; }</style>\
+                <p id=\"x\" style=\"color: #ff0000 !important\">inlineimp</p><p id=\"y\" style=\"color: #ff0000\">inlinenormal</p>";
+    let lines = crate::config::rich().use_doc_css().lines_from_read(html.as_bytes(), 60).expect("renders");
+    let mut seen = 0;
+    for l in lines {
+        for ts in l.tagged_strings() {
+            let colours: Vec<crate::Colour> = ts.tag.iter().filter_map(|a| if let crate::render::RichAnnotation::Colour(c) = a { Some(*c) } else { None }).collect();
+            if ts.s.contains("inlineimp") {
+                seen += 1;
+                assert!(colours.last().map(|c| (c.r, c.g, c.b)) == Some((255, 0, 0)), "inline !important lost against the rule: {:?}", colours);
+            }
+            if ts.s.contains("inlinenormal") {
+                seen += 1;
+                assert!(colours.last().map(|c| (c.r, c.g, c.b)) == Some((0, 0, 255)), "a normal inline declaration beat an !important rule: {:?}", colours);
+            }
+        }
+    }
+    assert!(seen == 2, "texts not found");
+}
+
 crate::verif_common::registry! {
-    m_css_final_semicolon, m_css_case, m_display_none, m_descendant_self, m_css_progress, m_nth_parse, m_nth_child,
+    m_inline_important, m_css_final_semicolon, m_css_case, m_display_none, m_descendant_self, m_css_progress, m_nth_parse, m_nth_child,
     s3_selector_specificity,
 }
